@@ -1,5 +1,5 @@
 """C20 - the language server survives any session and answers from the current text only."""
-import json
+import json, re
 import os
 import shutil
 
@@ -24,10 +24,44 @@ LIB = "let traceid = 1;\nlet val = 7;\nlet mk = func (x) => {v = x, s = \"s\"};\
 
 LIBNAME = "lib/shared.ucg"
 LIB_VARIANTS = [LIB, LIB.replace("let val = 7;", "let val = \"seven\";"), LIB.replace("port = 80", "prt = 80"), "let val = ;\n", "",
-                LIB.replace("let mk = func (x)", "let mk = func (x, y)"), LIB + "let extra = 1;\n", "let traceid = 1;\nlet val = 7;\n"]
+                LIB.replace("let mk = func (x)", "let mk = func (x, y)"), LIB + "let extra = 1;\n", "let traceid = 1;\nlet val = 7;\n",
+                # the same bindings far down and far to the right: a position of this file is outside most documents that import it
+                "\n" * 12 + LIB.replace("let cfg = {host = \"h\", port = 80};", "let cfg = {\n" + " " * 60 + "host = \"h\",\n" + " " * 70 + "port = 80,\n};") +
+                "let deep = {\n" + " " * 50 + "inner = {\n" + " " * 90 + "leaf = 1,\n},\n};\n"]
+
+
+NON_ASCII = ["é", "éé", "ñandú", "日本語テキスト", "😀😀😀", "αβγδ", "ü", "中", "\u00a0\u00a0", "x\u0301y\u0301", "𝔘𝔫𝔦"]
+
+
+def nonascii_before_fault(r):
+    """one fault (most of them syntax faults) with multi-byte characters before it on the same line: byte column,
+    character column and UTF-16 column of the fault all differ"""
+    na = "".join(r.choice(NON_ASCII) for _ in range(r.randint(1, 4)))
+    nb = r.choice(NON_ASCII)
+    nl = r.choice(["\n", "\r\n"])
+    lead = r.choice(["", "let a = 1;" + nl, "// " + nb + nl, "let a = \"" + nb + "\";" + nl + nl])
+    line = r.choice([
+        'let s = "%s" 1;' % na,
+        'let s = "%s" 1' % na,
+        'let s = "%s" +;' % na,
+        'let t = {k = "%s", m = };' % na,
+        'let t = {"%s" = 1, m = };' % na,
+        'let u = ["%s", "%s" "x"];' % (na, nb),
+        'let s = "%s"; let b = ;' % na,
+        'let s = "%s"; // %s' % (na, nb) + nl + 'let c = "%s" "%s";' % (nb, na),
+        'let f = func (x) => "%s" %% ;' % na,
+        'let s = "%s" + 1;' % na,
+        'let s = "%s"; let n = s + 1;' % na,
+        'let s = {k = "%s"}; let n = s.k.zz;' % na,
+        'assert {ok = "%s" == 1, desc = "%s"};' % (na, nb),
+    ])
+    tail = r.choice(["", nl, nl + "let z = 2;" + nl])
+    return lead + line + tail
 
 
 def rand_text(r, probe):
+    if r.random() < 0.08:
+        return nonascii_before_fault(r)
     x = r.random()
     if x < 0.35:
         stmts, _ = progs.gen_program(r, depth=3, nstmts=5, p_bad=r.choice([0, 0, 0.05]))
@@ -41,6 +75,10 @@ def rand_text(r, probe):
         # imports another document of the session, which exists only in the editor, never on disk
         return "let o = import \"doc%d.ucg\";\nlet z = o.v + 1;\nlet q = o.nope;\n" % r.randint(0, 2)
     if x < 0.5:
+        if r.random() < 0.5:
+            # bindings taken from the import and used through further bindings
+            return ("let lib = import \"lib/shared.ucg\";\nlet t = lib.cfg;\nlet h = t.host;\nlet p = t.port + %d;\n"
+                    "let d = lib.deep;\nlet i = d.inner;\nlet l = i.leaf;\nlet m = lib.mk(1);\nlet w = m.v;\n" % r.randint(0, 9))
         return "let lib = import \"lib/shared.ucg\";\nlet v = lib.val + %d;\nlet c = lib.cfg.port;\nlet t = lib.mk(\"é\");\n" % r.randint(0, 9)
     if x < 0.7:
         stmts, _ = progs.gen_program(r, depth=3, nstmts=4, p_bad=0.0)
@@ -59,9 +97,13 @@ def rand_text(r, probe):
 def positions_for(r, text):
     lines = text.split("\n")
     out = []
+    dots = [(li, m.end()) for li, l in enumerate(lines) for m in re.finditer(r"\.", l)]
     for _ in range(3):
         x = r.random()
-        if x < 0.5 and lines:
+        if dots and r.random() < 0.3:
+            # on the name that follows a dot
+            out.append(r.choice(dots))
+        elif x < 0.5 and lines:
             li = r.randrange(len(lines))
             out.append((li, r.randint(0, max(0, len(lines[li])))))
         elif x < 0.7 and lines:
@@ -72,7 +114,9 @@ def positions_for(r, text):
         elif x < 0.95:
             out.append((r.randint(0, max(0, len(lines) - 1)), 10 ** r.randint(2, 6)))
         else:
-            out.append((2 ** 31 - 1, 2 ** 31 - 1))
+            # the largest values the protocol's and the wire format's unsigned integers can take
+            big = r.choice([2 ** 31 - 1, 2 ** 32 - 1, 2 ** 32 - 2, 2 ** 31])
+            out.append(r.choice([(big, big), (big, 0), (0, big), (r.randint(0, max(0, len(lines) - 1)), big)]))
     return out
 
 
@@ -124,6 +168,42 @@ def text_for_uri(uri, docs, root):
     return None
 
 
+class Docs(dict):
+    """uri -> current editor text (None = closed).  Remembers a logical time for every open / change / close, when each
+    document was last analysed by the server (its own last open or change) and every text it had."""
+
+    def __init__(self):
+        super().__init__()
+        self.clock = 0
+        self.analysed = {}
+        self.versions = {}
+
+    def __setitem__(self, uri, text):
+        self.clock += 1
+        if text is not None:
+            self.analysed[uri] = self.clock
+        self.versions.setdefault(uri, []).append((self.clock, text))
+        super().__setitem__(uri, text)
+
+    def changed_since_analysed(self, requester, target):
+        t0 = self.analysed.get(requester, 0)
+        return any(clk > t0 for clk, _ in self.versions.get(target, []))
+
+    def text_seen_by(self, requester, target, root):
+        """the text of `target` that was current when `requester` was last analysed (the file on disk if it was not open)"""
+        t0 = self.analysed.get(requester, 0)
+        cur = None
+        for clk, text in self.versions.get(target, []):
+            if clk <= t0:
+                cur = text
+        if cur is None:
+            try:
+                return open(target[len("file://"):], encoding="utf-8").read()
+            except (OSError, UnicodeDecodeError):
+                return None
+        return cur
+
+
 def check_ranges(resp_kind, payload, uri, docs, root, res, witness):
     """walk a response / notification payload and check every range against the document it belongs to"""
     def bad(rng, u, where):
@@ -155,6 +235,14 @@ def check_ranges(resp_kind, payload, uri, docs, root, res, witness):
                     res.violation(["definition-points-to-missing-file"], witness, {"location": loc})
                 continue
             if not range_ok(loc.get("range", {}), t):
+                if isinstance(docs, Docs) and loc["uri"] != uri and docs.changed_since_analysed(uri, loc["uri"]):
+                    # the requesting document was analysed before the target got its current text: is the answer
+                    # right for the text the target had then?
+                    old = docs.text_seen_by(uri, loc["uri"], root)
+                    if old is not None and range_ok(loc.get("range", {}), old):
+                        res.violation(["range-outside-document", "definition", "right-for-the-target-text-the-requesting-document-was-analysed-with"], witness,
+                                      {"range": loc.get("range"), "uri": os.path.basename(loc["uri"]), "text_head": t[:200], "older_text_head": old[:200]})
+                        continue
                 bad(loc.get("range"), loc["uri"], "definition")
     elif resp_kind == "symbols":
         for s in payload or []:
@@ -197,7 +285,7 @@ def run_session(r, probe, res, sid):
             open(os.path.join(root, "lib", "shared.ucg"), "w").write(disk_lib)
             script.append(["disk", LIBNAME, disk_lib])
         client = lsp.LspClient(root, tp.path("home"))
-        docs = {}            # uri -> current text or None when closed
+        docs = Docs()        # uri -> current text or None when closed
         witness = {"script": script}
         st, resp = client.initialize(root)
         if st != "ok":
@@ -314,6 +402,7 @@ def run_session(r, probe, res, sid):
             if imported or any(sc[0] == "didClose" for sc in script):
                 for u, t in list(docs.items()):
                     if t is not None and "import \"doc" in t:
+                        docs[u] = t
                         script.append(["didChange", os.path.relpath(u[7:], root), t])
                         client.notify("textDocument/didChange", {"textDocument": {"uri": u, "version": 999}, "contentChanges": [{"text": t}]})
                 res.count("sessions-with-session-document-imports")
@@ -327,6 +416,7 @@ def run_session(r, probe, res, sid):
                 docs[luri] = None
             for uri, text in list(docs.items()):
                 if text is not None:
+                    docs[uri] = text
                     script.append(["didChange", os.path.relpath(uri[7:], root), text])
                     client.notify("textDocument/didChange", {"textDocument": {"uri": uri, "version": 1000}, "contentChanges": [{"text": text}]})
             res.count("sessions-with-library-edits")
@@ -455,7 +545,7 @@ def replay_script(script):
             if s[0] == "disk":
                 open(os.path.join(root, s[1]), "w").write(s[2])
         client = lsp.LspClient(root, tp.path("home"))
-        docs = {}
+        docs = Docs()
         witness = {"script": script}
         st, _ = client.initialize(root)
         if st != "ok":
